@@ -56,3 +56,16 @@ package omap
 //@   ensures  [C04] inv: mapInv(m)
 //@   ensures  [C04] empty: m.m != nil ==> forall k int :: {k in m.m.elems} !(k in m.m.elems)
 //@   modifies m.m.root, m.m.size, m.m.max, m.m.elems
+//@
+//@ func (Map).Keys
+//@   requires [C04] mapInv(m)
+//@   ensures  [C04] none: m.m == nil || card(m.m.elems) == 0 ==> len(result) == 0
+//@   ensures  [C04] all: m.m != nil ==> len(result) == card(m.m.elems)
+//@   ghostret src imap[stree.KV[T, U]]
+//@   ensures  [C04] keys: m.m != nil ==> forall i int :: {result[i]} 0 <= i && i < len(result) ==> result[i] == src[i].Key
+//@   ensures  [C04] members: m.m != nil ==> forall i int :: {src[i]} 0 <= i && i < len(result) ==> rank(m.m.compare, src[i]) in m.m.elems
+//@   ensures  [C04] stored: m.m != nil ==> forall i int :: {src[i]} 0 <= i && i < len(result) ==> src[i] == m.m.vals[rank(m.m.compare, src[i])]
+//@   ensures  [C04] ascending: m.m != nil ==> forall a int, b int :: {src[a], src[b]} 0 <= a && a < b && b < len(result) ==> rank(m.m.compare, src[a]) < rank(m.m.compare, src[b])
+//@   at loop 1 exit: ghost src = yarg1
+//@   loop 1: invariant [C04] len(out) == it1 && fresh(out) && old_arrays_unchanged(out) && forall k int :: {yret1[k]} 0 <= k && k < it1 ==> yret1[k]
+//@   loop 1: invariant [C04] members: forall i int :: {out[i]} 0 <= i && i < len(out) ==> out[i] == yarg1[i].Key
